@@ -69,7 +69,7 @@ THEOREMS = {
               "C15_matmul_batched_mat_vec, C15_matmul_vec_batched, C15_matmul_is_matrix_product, C15_matmul_is_mulVec, C15_rejects_matmul",
     "inner_prod": "C15_inner_prod_vec, C15_inner_prod_scalar, C15_inner_prod_is_star_dot, C15_rejects_inner_prod",
     "outer_prod": "C15_outer_prod, C15_outer_prod_is_vecMulVec, C15_rejects_outer_prod",
-    "einsum": "C15_einsum, C15_einsum_complex, C15_einsum_real_part, C15_einsum_imag_part, C15_einsum_flags, C15_einsum_reads_valid, "
+    "einsum": "C15_einsum, C15_einsum_complex, C15_einsum_real_part, C15_einsum_imag_part, C15_einsum_flags, C15_einsum_flag, C15_einsum_reads_valid, "
               "C15_allIdx_spec, C15_sumLabels_spec, C15_einsum_ib_ibg, C15_rejects_einsum, C15_einsum_string, "
               "C15_einsum_explicit_equation, C15_einsum_implicit_output, C15_einsum_ellipsis_spec, C15_einsum_ellipsis_alignment, "
               "C15_einsum_implicit_matmul, C15_einsum_ellipsis_batched",
@@ -297,6 +297,10 @@ def canon(r):
     """canonical form of an implementation return value"""
     if r is None:
         return {"kind": "none"}
+    if isinstance(r, (bool, int, float)):   # a Python number is as good as a 0-d tensor (the property constrains the value only)
+        return {"shape": [], "data": [float(r)], "dtype": "f64"}
+    if isinstance(r, complex):
+        r = np.complex128(r)
     if isinstance(r, (np.ndarray, np.generic)):  # cplx.numpy of a complex scalar gives a numpy scalar
         r = np.asarray(r)
         return {"shape": list(r.shape), "re": np.real(r).astype(np.float64).ravel().tolist(),
@@ -759,13 +763,96 @@ def alias_buffer(arena, case, x, y):
     return base[start:start + numel(os_)].view(os_)
 
 
-def call_fn(case, fn, x, y, out):
-    if fn == "make_complex":
-        return cplx.make_complex(x, y)
+# ------------------------------------------------------------------ call forms (final pass, audit item C15-1)
+# HOW the options of a call are handed over is a pure function of the case's "fseed" (stored in the case: a replay hands over the
+# same objects in the same positions; a case without it - the corpus of earlier rounds - is called as before: Python singletons by
+# keyword).  einsum: real_part / imag_part as every kind of object callers pass for a `bool` (qc.FLAG_FORMS: True/False, 1/0,
+# numpy.bool_, the result of a numpy comparison, 0-dim bool array, 0-dim torch.bool tensor), positionally (real_part alone or both)
+# with probability 1/2, by keyword in either order, a True one left to its default; scalar_mult: out= positionally with probability
+# 1/2, out=None passed or left out; make_complex / sigmoid: second operand positionally or by its documented name.
+EINSUM_STYLES = ("kw", "kw_rev", "pos_rp", "pos_both", "pos_both", "pos_rp")
+
+
+def call_form(case):
+    """JSON-able description of the call form of this case (None: the plain form of the earlier rounds)"""
+    fseed = case.get("fseed")
+    fn = case["fn"]
+    if fseed is None or fn not in ("einsum", "scalar_mult", "make_complex", "sigmoid"):
+        return None
+    import random
+    r = random.Random(fseed)
+    if fn == "einsum":
+        fl = qc.Flags(fseed)
+        _, rpd = fl(case["rp"])
+        _, ipd = fl(case["ip"])
+        style = r.choice(EINSUM_STYLES)
+        cf = {"style": style, "rp": {"form": rpd["form"], "value": rpd["value"]}, "ip": {"form": ipd["form"], "value": ipd["value"]},
+              "omit_rp": False, "omit_ip": False, "kw_operands": False}
+        # a default (True) may be left out: imag_part whenever it is not followed by anything (always), real_part only in keyword forms
+        if case["ip"] and r.random() < 0.3:
+            cf["omit_ip"] = True
+        if case["rp"] and style in ("kw", "kw_rev") and r.random() < 0.3:
+            cf["omit_rp"] = True
+        if style in ("kw", "kw_rev") and r.random() < 0.15:
+            cf["kw_operands"] = True     # the documented names `equation`, `a`, `b`
+        return cf
     if fn == "scalar_mult":
+        if case.get("out") is None:
+            return {"style": r.choice(["omit", "omit", "kw_none", "pos_none"])}
+        return {"style": r.choice(["pos", "kw"])}
+    if fn == "make_complex":
+        if case.get("y") is None:
+            return {"style": r.choice(["omit", "omit", "kw_none", "pos_none"])}
+        return {"style": r.choice(["pos", "pos", "kw_y", "kw_xy"])}
+    return {"style": r.choice(["pos", "pos", "kw_y", "kw_xy"])}
+
+
+def call_objects(case):
+    """the call form with the option OBJECTS built (once per case: the history dimension re-uses them for both calls)"""
+    cf = call_form(case)
+    if cf is not None and case["fn"] == "einsum":
+        cf = dict(cf, rp_obj=qc.flag_value(cf["rp"]), ip_obj=qc.flag_value(cf["ip"]))
+    return cf
+
+
+def call_fn(case, fn, x, y, out, cf=None):
+    st = (cf or {}).get("style")
+    if fn == "make_complex":
+        if st == "omit":
+            return cplx.make_complex(x)
+        if st in ("kw_none", "kw_y"):
+            return cplx.make_complex(x, y=y)
+        if st == "kw_xy":
+            return cplx.make_complex(y=y, x=x)
+        return cplx.make_complex(x, y)
+    if fn == "sigmoid":
+        if st == "kw_y":
+            return cplx.sigmoid(x, y=y)
+        if st == "kw_xy":
+            return cplx.sigmoid(y=y, x=x)
+        return cplx.sigmoid(x, y)
+    if fn == "scalar_mult":
+        if st == "omit":
+            return cplx.scalar_mult(x, y)
+        if st in ("pos", "pos_none"):
+            return cplx.scalar_mult(x, y, out)
         return cplx.scalar_mult(x, y, out=out)
     if fn == "einsum":
-        return cplx.einsum(case["eq"], x, y, real_part=case["rp"], imag_part=case["ip"])
+        if cf is None:
+            return cplx.einsum(case["eq"], x, y, real_part=case["rp"], imag_part=case["ip"])
+        rp, ip = cf["rp_obj"], cf["ip_obj"]
+        kw = {}
+        if not cf["omit_ip"]:
+            kw["imag_part"] = ip
+        if st == "pos_both" and not cf["omit_ip"]:
+            return cplx.einsum(case["eq"], x, y, rp, ip)
+        if st in ("pos_rp", "pos_both"):
+            return cplx.einsum(case["eq"], x, y, rp, **kw)
+        if not cf["omit_rp"]:
+            kw = {"real_part": rp, **kw} if st == "kw" else {**kw, "real_part": rp}
+        if cf["kw_operands"]:
+            return cplx.einsum(b=y, a=x, equation=case["eq"], **kw)
+        return cplx.einsum(case["eq"], x, y, **kw)
     if fn in ("real", "imag", "numpy", "conjugate", "conj", "norm_sqr", "absolute_value", "inverse", "norm"):
         return getattr(cplx, fn)(x)
     return getattr(cplx, fn)(x, y)
@@ -837,10 +924,11 @@ def _run_impl(case):
                 os_ = [2] + np_broadcast(case["x"]["shape"][1:], case["y"]["shape"][1:])
                 odt = torch.float32 if mode == "fresh32" else torch.double
             out = arena.tensor("out", np.full(os_, 7.0), odt, lays.get("out"), fill=7.0)
+        cf = call_objects(case)
         if prev:
             # HISTORY: a first call on the same objects with other data, then in-place re-parametrisation
             try:
-                r0 = call_fn(case, fn, x, y, out)
+                r0 = call_fn(case, fn, x, y, out, cf)
             except Exception:  # noqa: BLE001
                 r0 = None
             for role in ("x", "y"):
@@ -855,7 +943,7 @@ def _run_impl(case):
             img = MemImage(arena, [x, y, out])
             extra["mem"] = {"before": img.cells(), "x": img.view(x), "y": img.view(y), "out": img.view(out)}
         try:
-            r = call_fn(case, fn, x, y, out)
+            r = call_fn(case, fn, x, y, out, cf)
             if prev and r0 is not None and r0 is not out and fn not in ("real", "imag"):
                 scribble(r0)
             res = canon(r)
@@ -937,7 +1025,10 @@ def run_model(ctx, case):
         elif case.get("y") is not None:
             req["y"] = tj(case["y"])
         if fn == "einsum":
-            req.update(eq=eq_to_json(case["eq"]), real_part=case["rp"], imag_part=case["ip"])
+            cf = call_form(case)
+            # the flag OBJECTS go to the model (QV.PyFlag via DriverLib.Flag.parseFlag; a plain bool = the Python singleton)
+            req.update(eq=eq_to_json(case["eq"]), real_part=cf["rp"] if cf else bool(case["rp"]),
+                       imag_part=cf["ip"] if cf else bool(case["ip"]))
     r = ctx.driver.call("c15.op", **req)
 
     def dec(vals):
@@ -959,8 +1050,12 @@ def run_model(ctx, case):
     return out, extra
 
 
+OUT_BUFFER_MODES = ("fresh", "fresh32", "shape", "alias")   # out= is an object of the caller's that is not an operand
+
+
 def result_dtype_expected(case):
-    """dtype of the returned tensor as the kernel defines it (`y.to(x)`: x's dtype; out= keeps the buffer's dtype)"""
+    """dtype of an accepted out= buffer (it is returned as it is); for calls without a buffer the kernel's own choice
+    (`y.to(x)`: x's dtype), which is NOT demanded by any point or oracle"""
     if case["fn"] == "scalar_mult" and case.get("out") in ("fresh", "fresh32"):
         return "f32" if case["out"] == "fresh32" else "f64"
     if case["fn"] == "scalar_mult" and case.get("out") == "shape":
@@ -1076,6 +1171,14 @@ def one_case(ctx, case):
         ctx.count("history=second_call_after_inplace_update")
     if case.get("regime"):
         ctx.count(f"regime[{fn}]={case['regime']}")
+    cform = call_form(case)
+    if cform is not None:
+        ctx.count(f"call_form[{fn}]={cform['style']}")
+        if fn == "einsum":
+            ctx.count(f"flag_form[real_part]={'omitted' if cform['omit_rp'] else cform['rp']['form']}")
+            ctx.count(f"flag_form[imag_part]={'omitted' if cform['omit_ip'] else cform['ip']['form']}")
+            if cform["kw_operands"]:
+                ctx.count("call_form[einsum]=operands_by_keyword")
     sig = sig_of(case, fn, 'err' if is_err else 'value')
     th = THEOREMS.get(fn)
     with np.errstate(all="ignore"):
@@ -1126,8 +1229,12 @@ def one_case(ctx, case):
         i_struct["error"] = i_struct["error"] is not None
         m_struct["error"] = m_struct["error"] is not None
         if fn == "scalar_mult":
-            i_struct["dtype"] = impl.get("dtype")
-            m_struct["dtype"] = model.get("dtype")
+            # result DTYPE: the property speaks of values and of rejection only, so the dtype of a NEW result tensor is not demanded
+            # (a rewrite that promotes mixed float32 / float64 operands to the wider type still returns the right value); the
+            # only dtype statement kept is the documented "overwrites `out`": an accepted out= buffer comes back with its own dtype
+            if case.get("out") in OUT_BUFFER_MODES:
+                i_struct["dtype"] = impl.get("dtype")
+                m_struct["dtype"] = model.get("dtype")
             i_struct["id"] = iextra.get("id")
             m_struct["id"] = mextra.get("id")
         ctx.point(f"{fn}.kind_shape", "property", i_struct, m_struct, case, exact=True, theorem=th, sig=sig + "/shape")
@@ -1208,9 +1315,13 @@ def one_case(ctx, case):
     against_oracle(impl, f"{fn} == complex arithmetic", sig_of(case, fn, "oracle"))
     if iextra.get("buffer") is not None:
         against_oracle(iextra["buffer"], f"{fn}: the out= buffer holds the product", f"{fn}/out-buffer-oracle")
-    if "dtype" in impl and fn in ("scalar_mult", "elementwise_mult", "matmul", "inner_prod"):
-        ctx.oracle(f"{fn} dtype", impl["dtype"] == result_dtype_expected(case), case,
-                   detail={"impl": impl["dtype"], "expected": result_dtype_expected(case)}, sig=f"{fn}/dtype")
+    if "dtype" in impl:
+        # informational only (final pass, audit item C15-4): the dtype of a newly created result is not part of the property
+        ctx.count(f"result_dtype[{fn}]={impl['dtype']}")
+        if fn == "scalar_mult" and case.get("out") in OUT_BUFFER_MODES:
+            ctx.oracle(f"{fn}: an accepted out= buffer keeps its dtype", impl["dtype"] == result_dtype_expected(case), case,
+                       detail={"impl": impl["dtype"], "expected": result_dtype_expected(case)}, sig=f"{fn}/out-dtype",
+                       theorem="C15_scalar_mult_out")
 
 
 # ------------------------------------------------------------------ generators
@@ -1872,6 +1983,8 @@ def decorate(ctx, case):
     fn = case["fn"]
     num = case["num"]
     lay = {}
+    if fn in ("einsum", "scalar_mult", "make_complex", "sigmoid"):
+        case["fseed"] = rng.randrange(2 ** 31)     # seed of the call form (see `call_form`)
     if fn == "make_complex_np":
         l = rand_layout(rng, case["shape"], allow_expand=False, p_plain=0.6)
         if l:
